@@ -208,11 +208,14 @@ def run_all(tier, seed):
     # Failures inside a function that reached steps 1-4 are judged differentially against the SAME hint configuration on the
     # unchanged tree (hint_baseline.json); all other functions are decided as usual.
     hint_state = {}
+    drop_modules, drop_uses = set(), set()   # fallback for an import that does not resolve (an item the stand-ins do not have)
     for attempt in range(12):
         cfg = dict(base_cfg)
         cfg['nohint_fns'] = nohint
         cfg['drop_bodies'] = list(base_cfg['drop_bodies']) + dropped
         cfg['skip_hints'] = dict((k, sorted(v)) for k, v in skip.items() if k not in nohint)
+        cfg['drop_module_bodies'] = sorted(drop_modules)
+        cfg['drop_use_names'] = sorted(drop_uses)
         cfgp = os.path.join(cdir, 'extract_attempt%d.json' % attempt)
         json.dump(cfg, open(cfgp, 'w'))
         path, xlog, err = D.gen(cdir, extract_cfg=cfgp)
@@ -253,6 +256,22 @@ def run_all(tier, seed):
         tool = [f for f in fl0 if f['kind'] == 'tool']
         progressed = False
         if tool:
+            # an unresolved import cannot be cured by dropping one function: the import is removed and every body of that
+            # module is dropped (its contracts are then unverified -> UNDECIDED for the properties they carry)
+            unresolved = [f for f in tool if f.get('code') in ('E0432', 'E0433') and f['module'].startswith('code::')]
+            new_unres = False
+            for f in unresolved:
+                mod = f['module'][len('code::'):]
+                names = set(n.rsplit('::', 1)[-1] for n in re.findall(r'`([A-Za-z0-9_:]+)`', f['message']))
+                if names - drop_uses or mod not in drop_modules:
+                    drop_uses.update(names)
+                    drop_modules.add(mod)
+                    new_unres = True
+            if new_unres:
+                for (ln, nm, key, src) in gi.fn_at:
+                    if key and src and gi.module_of(ln)[len('code::'):] in drop_modules:
+                        res['degraded'][key] = 'BODY NOT VERIFIED (an import of its module does not resolve: %s)' % ', '.join(sorted(drop_uses))
+                continue
             fns = sorted(set(f['fn'] for f in tool if f['fn'] and f['module'].startswith('code') and f['src']))
             if not fns or attempt == 11:
                 break
@@ -353,6 +372,8 @@ def run_all(tier, seed):
         c2['nohint_fns'] = list(nohint)
         c2['drop_bodies'] = list(c2.get('drop_bodies', [])) + list(dropped)
         c2['skip_hints'] = dict((k, sorted(v)) for k, v in skip.items() if k not in nohint)
+        c2['drop_module_bodies'] = sorted(drop_modules)
+        c2['drop_use_names'] = sorted(drop_uses)
         cfg2 = os.path.join(cdir, 'extract_secp_final.json')
         json.dump(c2, open(cfg2, 'w'))
         path2, xlog2, err2 = D.gen(d2, extract_cfg=cfg2)
